@@ -50,7 +50,7 @@ MODELLED RATHER THAN VERIFIED (what the statements below do not cover):
 -/
 import Compass.Model.Search
 import Compass.Gen.Decisions
-import Compass.Gen.Fns
+import Compass.Gen.FnsC13
 import Compass.Proofs.Num
 import Compass.Model.Ksp
 import Compass.Proofs.Ksp
@@ -1620,7 +1620,7 @@ theorem src_relax_improves {α : Type} [Field α] [LinearOrder α] [IsStrictOrde
 
 /-! ### Generated function bodies
 
-`tools/gen_fns.py` re-translates the body of the Rust function on every run into `Compass/Gen/Fns.lean`
+`tools/gen_fns.py` re-translates the body of the Rust function on every run into `Compass/Gen/FnsC13.lean`
 (`Gen.<Type>_<fn>`; conventions in the header of the tool).  Each `gen_*_eq` theorem below says that the
 generated definition *is* the hand-written model function the property theorems are about.  A source
 change to the function changes the generated definition and the proof stops checking (a body the
